@@ -51,7 +51,7 @@ MANIFEST = dict(
 P = "Xmp.Downmix."
 REQUIRED = [P + n for n in (
     "C13_unsigned", "C13_unsigned_offsets", "C13_8_is_high_byte", "C13_amp_doubles", "C13_amp_doubles_observable",
-    "C13_amp_api_range", "C13_buffer_layout", "C13_frame_encodings", "C13_timeline", "C13_timeline_writers",
+    "C13_amp_api_range", "C13_buffer_layout", "C13_ticksize_guard", "C13_frame_encodings", "C13_timeline", "C13_timeline_writers",
     "seqWriters_outside_mixer", "seqWriters_scan_sane", "shifts_match_code", "offsets_match_code", "limits_consistent",
     "fmt_bits_distinct")]
 
@@ -213,6 +213,37 @@ def run_downmix(ck, consts, budget_mul):
             ck.unproved("correspondence Downmix.d8/d16 vs downmix_int_8bit/16bit",
                         "block %s: hashes differ; first differing accumulator: real=%s model=%s" % (
                             key, where[0] if where else "?", where[1] if where else "?"))
+    # voiceless frames with an exactly computable tick size: ticksize refusal / minimum, the guard of
+    # libxmp_mixer_prepare, the size cap and the format dispatch of the final stage vs the model
+    mx = consts["maxFramesize"]
+    fs = [-5, 0, 1, 7, 8, 9, 10, 441, 882, mx // 2 - 1, mx // 2, mx // 2 + 1, mx - 1, mx, mx + 1, 2 * mx, 100000,
+          (1 << 31) - 1, (1 << 31) - 2]
+    fs += [ck.rng.randint(1, mx) for _ in range(8 if quick else 200)]
+    plines = ["prep %d %d %d" % (fmt, f, ck.rng.randint(0, 3)) for f in fs for fmt in range(8)]
+    rc, real, err, model = downmix_shard((exe, "\n".join(plines) + "\n", ck.lean_ok))
+    st["prep_frames"] = len(plines)
+    st["prep_agree"] = 0
+    if rc != 0:
+        sig = vlib.sanitizer_signature(err)
+        ck.violation("harness-abort:prep:" + sig, {"kind": "downmix", "values": [], "script": "\n".join(plines), "stderr": err[-3000:]},
+                     "final mixer stage on a voiceless context aborted (rc=%d): %s" % (rc, sig))
+    else:
+        rp = [l for l in real if l.startswith("prep ")]
+        for f in [l for l in real if l.startswith("oracle_fail")][:2]:
+            ck.violation("oracle:downmix:overrun_frame", {"kind": "downmix", "values": [], "script": "\n".join(plines), "line": f},
+                         "the final stage wrote past the reported frame size: " + f)
+        if model is not None:
+            mp = [l for l in model if l.startswith("prep ")]
+            for line, r, m in zip(plines, rp, mp):
+                ck.count("prep:" + line, nontrivial=True)
+                if r == m:
+                    st["prep_agree"] += 1
+                    ck.cov["traces_validated_against_impl"] += 1
+                else:
+                    ck.unproved("correspondence Downmix.prepareTicksize/ticksizeOf/renderBytes vs libxmp_mixer_prepare + final stage",
+                                "%s: real=%s model=%s" % (line, r, m))
+            if len(rp) != len(plines) or len(mp) != len(plines):
+                ck.unproved("correspondence prep", "line counts differ: script %d real %d model %d" % (len(plines), len(rp), len(mp)))
     for k, v in st.items():
         ck.note(k, v)
     ck.sample({"downmix_block": text(specs[1]).strip() if len(specs) > 1 else "", "boundary_values": bvals[:6]}, limit=2)
